@@ -29,8 +29,30 @@ inductive Choice
   | random (n : Nat)
 deriving Repr, DecidableEq
 
+/-- ghost history (append-only): what the router did, in spec-level terms. It has no influence
+    on the behaviour; monitors and theorems relate it to the observable outputs. -/
+inductive Ghost
+  | registered (id link : Nat) (clientId : String) (clean sessionPresent : Bool)
+  | notRegistered (link : Nat)
+  | removed (id : Nat) (clientId : String) (clean : Bool)
+  | accepted (id : Option Nat) (p : Pub) (topic : String)
+  | appended (idx : Nat) (abs : Nat) (p : Pub)
+  | evicted (idx : Nat) (headAbs : Nat)
+  | subscribed (id : Nat) (path : String) (qos idx : Nat) (cursor : Cursor) (group : Option String) (isNew : Bool)
+  | unsubscribed (id : Nat) (path : String)
+  | committed (id : Nat) (a : Ack)
+  | clientAcked (id : Nat) (pkid : Nat)
+  | restored (id : Nat) (requests : List DataRequest)
+  | willSet (clientId : String)
+  | willCleared (clientId : String)
+  | willFired (clientId : String)
+deriving Repr
+
 structure RState extends State where
   oracle : List Choice := []
+  ghost : List Ghost := []
+
+def RState.g (s : RState) (e : Ghost) : RState := { s with ghost := s.ghost ++ [e] }
 
 def MAX_INFLIGHT : Nat := 100
 def MAX_CHANNEL_CAPACITY : Nat := 200
@@ -138,10 +160,12 @@ def appendToFilter (s : RState) (idx : Nat) (p : Pub) : M RState :=
   match s.datalog.native[idx]? with
   | none => .error (.panic "datalog.native.get_mut(filter_idx).unwrap()")
   | some fd =>
-    let (log, _) := fd.log.append p (pubSize p)
+    let (log, off) := fd.log.append p (pubSize p)
     let fd' := { fd with log := log, waiters := [] }
     let d := { s.datalog with native := s.datalog.native.set idx fd' }
-    .ok { s with datalog := d, notifications := s.notifications ++ fd.waiters }
+    let s := { s with datalog := d, notifications := s.notifications ++ fd.waiters }
+    let s := if log.head ≠ fd.log.head then s.g (.evicted idx ((log.segs.head?.map (·.abs)).getD 0)) else s
+    .ok (s.g (.appended idx (off.2 - 1) p))
 
 def appendToFilters (s : RState) : List Nat → Pub → M RState
   | [], _ => .ok s
@@ -191,6 +215,7 @@ def appendToCommitlog (s : RState) (id : Nat) (p : Pub) : M (RState × Option Ap
       | none => .ok (s, some .other)
       | some topic =>
         let s := updateRetained s topic p
+        let s := s.g (.accepted (some id) p topic)
         let p := { p with retain := false }
         match dlMatches s topic with
         | .error e => .error e
@@ -336,6 +361,7 @@ def handleDisconnection (s : RState) (id : Nat) (reason : Option String) : M RSt
       | none => s
       | some r => wakeLink (pushNotifs s c.link [Notif.disconnect r]) c.link
     let s := { s with conns := s.conns.remove id, connectionMap := aremove c.clientId s.connectionMap }
+    let s := s.g (.removed id c.clientId c.clean)
     let (dl, inflightReqs) := datalogClean s.datalog id
     let s := { s with datalog := dl }
     let retx := retransmissionMap c.out.inflight []
@@ -371,14 +397,14 @@ def validClientId (c : String) : Bool := !("+$#/".toList.any (fun ch => c.toList
 def handleNewConnection (s : RState) (spec : ConnectSpec) : M RState :=
   -- the link's buffers are created by the link before the event is sent
   let s := setLink s spec.link {}
-  if !validClientId spec.clientId then .ok s else
+  if !validClientId spec.clientId then .ok (s.g (.notRegistered spec.link)) else
   let r := match alookup spec.clientId s.connectionMap with
     | some old => handleDisconnection s old none
     | none => .ok s
   match r with
   | .error e => .error e
   | .ok s =>
-    if s.conns.len ≥ s.config.maxConnections then .ok s else
+    if s.conns.len ≥ s.config.maxConnections then .ok (s.g (.notRegistered spec.link)) else
     let saved := alookup spec.clientId s.graveyard
     let s := { s with graveyard := aremove spec.clientId s.graveyard }
     let session : Option SessionState := saved.bind id
@@ -390,7 +416,7 @@ def handleNewConnection (s : RState) (spec : ConnectSpec) : M RState :=
     let subs := match restored with | some ss => ss.subscriptions | none => []
     let pending := match restored with | some ss => ss.unackedPubrels | none => []
     let s := match spec.will with
-      | some w => { s with lastWills := ainsert spec.clientId w s.lastWills }
+      | some w => ({ s with lastWills := ainsert spec.clientId w s.lastWills }).g (.willSet spec.clientId)
       | none => s
     let conn : Conn :=
       { clientId := spec.clientId, link := spec.link, clean := spec.clean,
@@ -402,6 +428,9 @@ def handleNewConnection (s : RState) (spec : ConnectSpec) : M RState :=
     if !trackerNoDup tracker then .error (.panic "debug_assert check_tracker_duplicates (new connection)") else
     let acks := [Ack.connack id (!spec.clean && previousSession)] ++ pending.map Ack.pubrel
     let s := setConn s id { conn with acks := { committed := acks } }
+    let s := s.g (.registered id spec.link spec.clientId spec.clean (!spec.clean && previousSession))
+    let s := if restored.isSome then s.g (.restored id tracker.requests) else s
+    let s := acks.foldl (fun s a => s.g (.committed id a)) s
     reschedule s id .init
 
 /-! ### device payload -/
@@ -416,7 +445,7 @@ structure Flags where
 def commitAck (s : RState) (id : Nat) (a : Ack) : M RState :=
   match getConn s id with
   | none => .error (.panic "ackslog.get_mut(id).unwrap()")
-  | some c => .ok (setConn s id { c with acks := { c.acks with committed := c.acks.committed ++ [a] } })
+  | some c => .ok ((setConn s id { c with acks := { c.acks with committed := c.acks.committed ++ [a] } }).g (.committed id a))
 
 def extractGroup (path : String) : Option (String × String) :=
   let p := path.toList
@@ -449,7 +478,9 @@ def prepareFilter (s : RState) (id : Nat) (cursor : Cursor) (idx : Nat) (f : Sub
     let c := match subId with
       | some i => { c with subscriptionIds := ainsert f.path i c.subscriptionIds }
       | none => c
-    if c.subscriptions.contains f.path then .ok (setConn s id c) else
+    if c.subscriptions.contains f.path then
+      .ok ((setConn s id c).g (.subscribed id f.path f.qos idx cursor group false)) else
+    let s := s.g (.subscribed id f.path f.qos idx cursor group true)
     let c := { c with subscriptions := c.subscriptions ++ [f.path] }
     let req : DataRequest :=
       { filter := f.path, filterIdx := idx, qos := f.qos, cursor := cursor,
@@ -502,7 +533,7 @@ def unsubscribeFilters (s : RState) (id : Nat) : List String → List Bool → M
         let s := setConn s id c
         let s := { s with datalog := removeWaiterFor s.datalog id f }
         let s := { s with notifications := s.notifications.filter (fun n => !(n.1 == id && n.2.filter == f)) }
-        unsubscribeFilters s id rest (rs ++ [true])
+        unsubscribeFilters (s.g (.unsubscribed id f)) id rest (rs ++ [true])
 
 /-- one packet of the batch -/
 def handlePacket (s : RState) (id : Nat) (clientId : String) (pkt : Packet) (fl : Flags) : M (RState × Flags) :=
@@ -518,7 +549,7 @@ def handlePacket (s : RState) (id : Nat) (clientId : String) (pkt : Packet) (fl 
         | none => .error (.panic "ackslog.get_mut(id).unwrap()")
         | some c =>
           let acks := { committed := c.acks.committed ++ [Ack.pubrec p.pkid], recorded := c.acks.recorded ++ [p] }
-          .ok (setConn s id { c with acks := acks }, { fl with forceAck := true }, true)
+          .ok ((setConn s id { c with acks := acks }).g (.committed id (.pubrec p.pkid)), { fl with forceAck := true }, true)
       else .ok (s, fl, false)
     match pre with
     | .error e => .error e
@@ -553,7 +584,7 @@ def handlePacket (s : RState) (id : Nat) (clientId : String) (pkt : Packet) (fl 
       let (o, ok) := c.out.registerAck pkid
       let s := setConn s id { c with out := o }
       if !ok then .ok (s, { fl with disconnect := true, stop := true }) else
-      match reschedule s id .incomingAck with
+      match reschedule (s.g (.clientAcked id pkid)) id .incomingAck with
       | .error e => .error e
       | .ok s => .ok (s, fl)
   | .pubrec pkid =>
@@ -564,7 +595,7 @@ def handlePacket (s : RState) (id : Nat) (clientId : String) (pkt : Packet) (fl 
       if !ok then .ok (setConn s id { c with out := o }, { fl with disconnect := true, stop := true }) else
       let o := { o with unackedPubrels := o.unackedPubrels ++ [pkid] }
       let c := { c with out := o, acks := { c.acks with committed := c.acks.committed ++ [Ack.pubrel pkid] } }
-      match reschedule (setConn s id c) id .incomingAck with
+      match reschedule (((setConn s id c).g (.clientAcked id pkid)).g (.committed id (.pubrel pkid))) id .incomingAck with
       | .error e => .error e
       | .ok s => .ok (s, fl)
   | .pubrel pkid false =>
@@ -573,10 +604,10 @@ def handlePacket (s : RState) (id : Nat) (clientId : String) (pkt : Packet) (fl 
     | some c =>
       let committed := c.acks.committed ++ [Ack.pubcomp pkid]
       match c.acks.recorded with
-      | [] => .ok (setConn s id { c with acks := { c.acks with committed := committed } },
+      | [] => .ok ((setConn s id { c with acks := { c.acks with committed := committed } }).g (.committed id (.pubcomp pkid)),
                    { fl with disconnect := true, stop := true })
       | p :: rest =>
-        let s := setConn s id { c with acks := { committed := committed, recorded := rest } }
+        let s := (setConn s id { c with acks := { committed := committed, recorded := rest } }).g (.committed id (.pubcomp pkid))
         match appendToCommitlog s id p with
         | .error e => .error e
         | .ok (s, some _) => .ok (s, { fl with disconnect := true, stop := true })
@@ -597,7 +628,8 @@ def handlePacket (s : RState) (id : Nat) (clientId : String) (pkt : Packet) (fl 
     | .error e => .error e
     | .ok s => .ok (s, { fl with forceAck := true })
   | .disconnect =>
-    .ok ({ s with lastWills := aremove clientId s.lastWills }, { fl with disconnect := true, stop := true })
+    .ok (({ s with lastWills := aremove clientId s.lastWills }).g (.willCleared clientId),
+         { fl with disconnect := true, stop := true })
   | .other => .ok (s, fl)
 
 def handlePackets (s : RState) (id : Nat) (clientId : String) : List Packet → Flags → M (RState × Flags)
@@ -820,11 +852,13 @@ def handleLastWill (s : RState) (clientId : String) : M RState :=
   | none => .ok s
   | some w =>
     let s := { s with lastWills := aremove clientId s.lastWills }
+    let s := s.g (.willFired clientId)
     let p : Pub := { qos := w.qos, pkid := 0, retain := w.retain, dup := false, topic := w.topic, payload := w.payload }
     match utf8? p.topic with
     | none => .ok s
     | some topic =>
       let s := updateRetained s topic p
+      let s := s.g (.accepted none p topic)
       let p := { p with retain := false }
       match dlMatches s topic with
       | .error e => .error e
